@@ -181,7 +181,7 @@ CHECKS = {
                  thorough=dict(shards=16, checks=2000, timeout=1800)),
         ],
         rule="(1) facade: the whole table-history driver (create, start, set-up, settlement-finish, reserve/join/re-buy/add-on/leave, blind update, deadline extension, all nine game actions incl. intruder attempts) is routed through Manager.X(tableID, ...) and the oracles of C01, C10, C12 and C15 apply unchanged; (2) twin managers with 1..6 tables and identical settings: a drawn sequence over all 25 manager methods is applied through the manager on one and through the engine obtained with GetTableEngine on the other; results (errors by text, values) and normalised table state must agree after every step; (3) every other table's state is byte-identical before and after each operation; (4) never-created / closed / released ids yield ErrManagerTableNotFound (-1 for the deadline); non-trivial = a sequence touching >=2 tables with at least one method of each group; distinct = distinct method sequences",
-        mandatory=dict(quick=["m:PauseTable", "m:CloseTable", "m:ReleaseTable", "m:StartTableGame", "m:UpdateBlind", "m:SetUpTableGame", "m:UpdateTablePlayers", "m:PlayerReserve", "m:PlayerJoin", "m:PlayerSettlementFinish", "m:PlayerRedeemChips", "m:PlayersLeave", "m:PlayerExtendActionDeadline", "m:PlayerReady", "m:PlayerPay", "m:PlayerBet", "m:PlayerRaise", "m:PlayerCall", "m:PlayerAllin", "m:PlayerCheck", "m:PlayerFold", "m:PlayerPass", "m:GetTableEngine", "m:CreateTable", "unknown_id", "closed_id", "released_id", "tables_6"]),
+        mandatory=dict(quick=["m:PauseTable", "m:CloseTable", "m:ReleaseTable", "m:StartTableGame", "m:UpdateBlind", "m:SetUpTableGame", "m:UpdateTablePlayers", "m:PlayerReserve", "m:PlayerJoin", "m:PlayerSettlementFinish", "m:PlayerRedeemChips", "m:PlayersLeave", "m:PlayerExtendActionDeadline", "m:PlayerReady", "m:PlayerPay", "m:PlayerBet", "m:PlayerRaise", "m:PlayerCall", "m:PlayerAllin", "m:PlayerCheck", "m:PlayerFold", "m:PlayerPass", "m:GetTableEngine", "m:CreateTable", "unknown_id", "closed_id", "released_id", "tables_6", "refused_create"]),
         assumptions=ASSUME_COMMON + ["hands are not twinned (the manager builds its own backend); hand-level effects of the player-game methods are covered by the facade part"],
     ),
     "C18": dict(
